@@ -32,8 +32,14 @@ Fixpoint le_val (bs : bytes) : Z :=
   match bs with [] => 0 | b :: t => (b mod 256) + 256 * le_val t end.
 
 (* `read_exact` of k bytes into a fresh local buffer (byteorder's read_u32 / read_u64 / read_u8) *)
-Definition take (k : nat) (s : bytes) : option (bytes * bytes) :=
-  if (k <=? length s)%nat then Some (firstn k s, skipn k s) else None.
+Fixpoint take (k : nat) (s : bytes) : option (bytes * bytes) :=        (* = Some (firstn k s, skipn k s) iff k <= |s| *)
+  match k with
+  | O => Some ([], s)
+  | S k' => match s with
+            | [] => None
+            | b :: t => match take k' t with Some (a, r) => Some (b :: a, r) | None => None end
+            end
+  end.
 
 Definition rd (k : nat) (s : bytes) : option (Z * bytes) :=
   match take k s with Some (b, r) => Some (le_val b, r) | None => None end.
@@ -42,8 +48,10 @@ Definition rd (k : nat) (s : bytes) : option (Z * bytes) :=
    std::io::Cursor and &[u8] copy nothing when fewer than k bytes are left; the default `read_exact`
    of any other reader (partial = true) has copied the available prefix when it fails. *)
 Definition rx (partial : bool) (k : nat) (old s : bytes) : bool * bytes * bytes :=
-  if (k <=? length s)%nat then (true, firstn k s ++ skipn k old, skipn k s)
-  else (false, (if partial then s ++ skipn (length s) old else old), []).
+  match take k s with
+  | Some (a, r) => (true, a ++ skipn k old, r)
+  | None => (false, (if partial then s ++ skipn (length s) old else old), [])
+  end.
 
 (* ------------------------------------------------------------------------------------------------ *)
 (* usize products: a * b * c * ... evaluated left to right on 64-bit words.
